@@ -62,8 +62,9 @@ Lemma flat_map_nil {A B} (f : A -> list B) l : (forall x, In x l -> f x = []) ->
 Proof. induction l as [|a l IH]; intros H; cbn; [reflexivity|]. rewrite (H a (or_introl eq_refl)), IH; [reflexivity|]. intros x Hx. apply H. right. exact Hx. Qed.
 
 (* ---------- the invariant ---------- *)
-Definition ihold (x : xjob) : nat := match xph x with XHolding | XRunning => 1 | _ => 0 end.
-Definition irun (g : nat) (x : xjob) : nat := match xph x with XRunning => if Nat.eqb (xgen x) g then 1 else 0 | _ => 0 end.
+Definition ihold (x : xjob) : nat := match xph x with XHolding | XQueued | XRunning => 1 | _ => 0 end.
+Definition irun (g : nat) (x : xjob) : nat := match xph x with XQueued | XRunning => if Nat.eqb (xgen x) g then 1 else 0 | _ => 0 end.
+Definition ibusy (x : xjob) : nat := match xph x with XRunning | XZombie => 1 | _ => 0 end.
 Definition xnhold (s : xs) : nat := lsum ihold (xjobs s).
 Definition xnrun (s : xs) (g : nat) : nat := lsum (irun g) (xjobs s).
 
@@ -135,8 +136,17 @@ Proof.
   apply Nat.ltb_lt in H1. destruct (xph (xget s j)); try discriminate. auto.
 Qed.
 
-Lemma irun_other g x : xph x <> XRunning -> irun g x = 0.
+Lemma irun_other g x : xph x <> XRunning -> xph x <> XQueued -> irun g x = 0.
 Proof. unfold irun. destruct (xph x); congruence. Qed.
+
+Lemma xenabled_start s j : xenabled s (XStart j) = true -> j < length (xjobs s) /\ xph (xget s j) = XQueued.
+Proof.
+  cbn [xenabled]. intros H. apply andb_true_iff in H as [H1 H2].
+  apply Nat.ltb_lt in H1. destruct (xph (xget s j)); try discriminate. auto.
+Qed.
+
+Lemma xbusy_lsum s : xbusy s = lsum ibusy (xjobs s).
+Proof. unfold xbusy, lsum, ibusy. induction (xjobs s) as [|a l IH]; cbn; [reflexivity|]. destruct (xph a); cbn; rewrite IH; reflexivity. Qed.
 
 (* returning the resources of a running job (normal return or exception) *)
 Lemma xinv_return q0 pop W s j p : XInv q0 pop W s -> xenabled s (XFinish j) = true -> (p = XDone \/ p = XFailed) ->
@@ -178,10 +188,19 @@ Proof. unfold xcancel, len_ok. destruct (xph x) eqn:E; cbn; try rewrite E; auto.
 Lemma nth_map_const {A} (l : list A) (W : nat) g : g < length l -> nth g (map (fun _ => W) l) 0 = W.
 Proof. revert g. induction l as [|a l IH]; intros g Hg; cbn in *; [lia|]. destruct g; [reflexivity| apply IH; lia]. Qed.
 
+Lemma xreturned_perm thr s : Permutation (xreturned thr s) (xheld s).
+Proof.
+  unfold xreturned, xheld. destruct thr; [reflexivity|]. induction (xjobs s) as [|a l IH]; cbn [flat_map]; [reflexivity|].
+  unfold xhold1 at 1, xrun1 at 1, xholds at 1. destruct (xph a); cbn [app]; try exact IH.
+  - rewrite <- app_assoc. apply Permutation_app_head. exact IH.
+  - rewrite <- app_assoc. apply Permutation_app_head. exact IH.
+  - rewrite <- IH. apply Permutation_app_swap_app.
+Qed.
+
 Theorem xinv_step q0 pop W thr s e : XInv q0 pop W s -> XInv q0 pop W (xstep pop W thr s e).
 Proof.
   intros H. unfold xstep. rewrite (x_err _ _ _ _ H). destruct (xenabled s e) eqn:En; cbn [negb]; [|exact H].
-  destruct e as [k|j|j|j|j| |j].
+  destruct e as [k|j|j|j|j|j| |j].
   - (* submit *)
     destruct H as [He Hc Hl Hperm Hsem Hgen Hsub]. constructor; cbn [xerr xqueue xjobs xperm xsems].
     + reflexivity.
@@ -195,9 +214,9 @@ Proof.
       destruct (Nat.lt_ge_cases g (length (xsems s))) as [L|L].
       * rewrite app_nth1 by exact L. specialize (Hsem g L). lia.
       * assert (g = length (xsems s)) by lia. subst g. rewrite app_nth2, Nat.sub_diag by lia. cbn [nth].
-        rewrite (lsum_zero (irun (length (xsems s))) (xjobs s)); [lia|]. intros x Hx. unfold irun. destruct (xph x) eqn:E; try reflexivity.
-        assert (xgen x < length (xsems s)) by (apply Hgen; [exact Hx| unfold ihold; rewrite E; lia]).
-        replace (xgen x =? length (xsems s)) with false by (symmetry; apply Nat.eqb_neq; lia). reflexivity.
+        rewrite (lsum_zero (irun (length (xsems s))) (xjobs s)); [lia|]. intros x Hx. unfold irun. destruct (xph x) eqn:E; try reflexivity;
+        (assert (xgen x < length (xsems s)) by (apply Hgen; [exact Hx| unfold ihold; rewrite E; lia]);
+         replace (xgen x =? length (xsems s)) with false by (symmetry; apply Nat.eqb_neq; lia); reflexivity).
     + intros x Hx Hpos. rewrite app_length. cbn. apply in_app_or in Hx as [Hx|Hx]; [specialize (Hgen x Hx Hpos); lia|].
       apply repeat_spec in Hx. subst. cbn in Hpos. lia.
     + intros _. rewrite app_length. cbn. lia.
@@ -221,9 +240,35 @@ Proof.
     + rewrite setn_length. exact Hsub.
   - (* run *)
     destruct (xenabled_run _ _ En) as (Hj & Hph & Hw).
-    destruct H as [He Hc Hl Hperm Hsem Hgen Hsub]. set (x := xget s j) in *. set (y := mkXJob XRunning (xres x) (xgen x)).
+    destruct H as [He Hc Hl Hperm Hsem Hgen Hsub]. set (x := xget s j) in *.
+    set (p := if thr then XQueued else XRunning). set (y := mkXJob p (xres x) (xgen x)).
+    assert (Hp : p = XQueued \/ p = XRunning) by (unfold p; destruct thr; auto).
+    assert (Hyh : xholds y = xres x) by (destruct Hp as [E|E]; unfold xholds, y; cbn; rewrite E; reflexivity).
+    assert (Hyi : ihold y = 1) by (destruct Hp as [E|E]; unfold ihold, y; cbn; rewrite E; reflexivity).
+    assert (Hyr : forall g, irun g y = if Nat.eqb (xgen x) g then 1 else 0) by (intros g; destruct Hp as [E|E]; unfold irun, y; cbn; rewrite E; reflexivity).
     assert (Hx : In x (xjobs s)) by (apply nth_In; exact Hj).
     assert (Hg : xgen x < length (xsems s)) by (apply Hgen; [exact Hx| unfold ihold; rewrite Hph; lia]).
+    constructor; cbn [xerr xqueue xjobs xperm xsems].
+    + reflexivity.
+    + unfold xheld in *. cbn [xjobs]. pose proof (flat_map_setn xholds xdflt (xjobs s) j y Hj) as P.
+      fold (xget s j) in P. fold x in P. rewrite Hyh in P. unfold xholds at 1 in P. rewrite Hph in P.
+      apply Permutation_app_inv_l in P. rewrite P. exact Hc.
+    + intros z Hz. apply in_setn in Hz as [->|Hz]; [|apply Hl, Hz]. pose proof (Hl x Hx) as L. unfold len_ok in *. rewrite Hph in L.
+      destruct Hp as [E|E]; unfold y; cbn; rewrite E; exact L.
+    + unfold xnhold in *. cbn [xjobs]. pose proof (lsum_setn ihold xdflt (xjobs s) j y Hj) as P.
+      fold (xget s j) in P. fold x in P. rewrite Hyi in P. unfold ihold at 1 in P. rewrite Hph in P. lia.
+    + intros g Hg'. rewrite setn_length in Hg'. unfold xnrun in *. cbn [xjobs]. rewrite nth_setn by exact Hg.
+      pose proof (lsum_setn (irun g) xdflt (xjobs s) j y Hj) as P. fold (xget s j) in P. fold x in P.
+      rewrite (irun_other g x) in P by congruence. rewrite Hyr in P.
+      specialize (Hsem g Hg'). destruct (Nat.eqb g (xgen x)) eqn:E.
+      * apply Nat.eqb_eq in E. subst g. rewrite Nat.eqb_refl in P. lia.
+      * rewrite Nat.eqb_sym, E in P. lia.
+    + intros z Hz Hpos. rewrite setn_length. apply in_setn in Hz as [->|Hz]; [exact Hg| apply Hgen; assumption].
+    + rewrite !setn_length. exact Hsub.
+  - (* a pool thread picks the job up *)
+    destruct (xenabled_start _ _ En) as (Hj & Hph). destruct (xbusy s <? W); [|exact H].
+    destruct H as [He Hc Hl Hperm Hsem Hgen Hsub]. set (x := xget s j) in *. set (y := mkXJob XRunning (xres x) (xgen x)).
+    assert (Hx : In x (xjobs s)) by (apply nth_In; exact Hj).
     constructor; cbn [xerr xqueue xjobs xperm xsems].
     + reflexivity.
     + unfold xheld in *. cbn [xjobs]. pose proof (flat_map_setn xholds xdflt (xjobs s) j y Hj) as P.
@@ -232,14 +277,10 @@ Proof.
     + intros z Hz. apply in_setn in Hz as [->|Hz]; [|apply Hl, Hz]. pose proof (Hl x Hx) as L. unfold len_ok in *. rewrite Hph in L. cbn. exact L.
     + unfold xnhold in *. cbn [xjobs]. pose proof (lsum_setn ihold xdflt (xjobs s) j y Hj) as P.
       fold (xget s j) in P. fold x in P. unfold ihold at 1 3 in P. rewrite Hph in P. cbn [y xph] in P. lia.
-    + intros g Hg'. rewrite setn_length in Hg'. unfold xnrun in *. cbn [xjobs]. rewrite nth_setn by exact Hg.
-      pose proof (lsum_setn (irun g) xdflt (xjobs s) j y Hj) as P. fold (xget s j) in P. fold x in P.
-      rewrite (irun_other g x) in P by congruence. unfold irun at 2 in P. cbn [y xph xgen] in P.
-      specialize (Hsem g Hg'). destruct (Nat.eqb g (xgen x)) eqn:E.
-      * apply Nat.eqb_eq in E. subst g. rewrite Nat.eqb_refl in P. lia.
-      * rewrite Nat.eqb_sym, E in P. lia.
-    + intros z Hz Hpos. rewrite setn_length. apply in_setn in Hz as [->|Hz]; [exact Hg| apply Hgen; assumption].
-    + rewrite !setn_length. exact Hsub.
+    + intros g Hg'. unfold xnrun in *. cbn [xjobs]. pose proof (lsum_setn (irun g) xdflt (xjobs s) j y Hj) as P.
+      fold (xget s j) in P. fold x in P. unfold irun at 1 3 in P. rewrite Hph in P. cbn [y xph xgen] in P. specialize (Hsem g Hg'). lia.
+    + intros z Hz Hpos. apply in_setn in Hz as [->|Hz]; [|apply Hgen; assumption]. cbn [y xgen]. apply Hgen; [exact Hx| unfold ihold; rewrite Hph; lia].
+    + rewrite setn_length. exact Hsub.
   - (* finish *) apply xinv_return; [exact H| exact En| left; reflexivity].
   - (* fail *) apply xinv_return; [exact H| exact En| right; reflexivity].
   - (* close *)
@@ -247,10 +288,10 @@ Proof.
     assert (Z1 : lsum ihold (map (xcancel thr) (xjobs s)) = 0) by (rewrite lsum_map; apply lsum_zero; intros; apply xcancel_ihold).
     constructor; cbn [xerr xqueue xjobs xperm xsems].
     + reflexivity.
-    + unfold xheld at 2. cbn [xjobs]. rewrite (flat_map_nil xholds (map _ _)); [rewrite app_nil_r; exact Hc|].
+    + unfold xheld at 1. cbn [xjobs]. rewrite (flat_map_nil xholds (map _ _)); [rewrite app_nil_r, xreturned_perm; exact Hc|].
       intros x Hx. apply in_map_iff in Hx as (y & <- & _). apply xcancel_holds.
     + intros x Hx. apply in_map_iff in Hx as (y & <- & Hy). apply xcancel_len, Hl, Hy.
-    + unfold xnhold. cbn [xjobs]. rewrite Z1. rewrite (Permutation_length Hc). lia.
+    + unfold xnhold. cbn [xjobs]. rewrite Z1. rewrite <- (Permutation_length Hc), !app_length, (Permutation_length (xreturned_perm thr s)). lia.
     + intros g Hg. rewrite map_length in Hg. rewrite nth_map_const by exact Hg. unfold xnrun. cbn [xjobs].
       rewrite lsum_map, lsum_zero; [lia|]. intros; apply xcancel_irun.
     + intros x Hx Hpos. apply in_map_iff in Hx as (y & <- & _). rewrite xcancel_ihold in Hpos. lia.
